@@ -444,6 +444,11 @@ class Evaluator:
     def eval_const_expr(self, m: ModuleInfo, e: ast.expr, key: str) -> T:
         if key in self._const_cache:
             return self._const_cache[key]
+        if (isinstance(e, (ast.Dict, ast.List, ast.Set)) and not (getattr(e, "keys", None) or getattr(e, "elts", None))) or (
+                isinstance(e, ast.Call) and isinstance(e.func, ast.Name) and e.func.id in ("dict", "list", "set") and not e.args and not e.keywords):
+            # an empty module-level container is mutable shared state: keep its identity
+            self._const_cache[key] = mk("ext", key)
+            return self._const_cache[key]
         self._const_cache[key] = mk("ext", key)  # recursion guard
         dummy = FuncInfo("<module>", m.name + ".<module>", m, ast.parse("def _m(): pass").body[0])
         fr = Frame(dummy, m, Scope(), None, None, 0)
